@@ -15,7 +15,7 @@ Open Scope string_scope.
 Definition content_eqb (a b : content) : bool :=
   match a, b with
   | CEmpty, CEmpty | CBad, CBad => true
-  | CSpec k1 d1, CSpec k2 d2 => String.eqb k1 k2 && list_eqb String.eqb d1 d2
+  | CSpec k1 d1 t1, CSpec k2 d2 t2 => String.eqb k1 k2 && list_eqb String.eqb d1 d2 && String.eqb t1 t2
   | _, _ => false
   end.
 Definition entry_eqb : fname * content -> fname * content -> bool := pair_eqb String.eqb content_eqb.
